@@ -111,6 +111,14 @@ func runCaseFull(c *Case) (tr Trace) {
 	}
 	apis := []api{{r.cont.Provide, r.cont.Decorate, r.cont.Invoke, r.cont.Scope, r.cont.String}}
 
+	r.nested = func(scope, fn int) {
+		f := r.fns[fn]
+		if f == nil || scope < 0 || scope >= len(apis) {
+			return
+		}
+		_ = apis[scope].invoke(r.makeFunc(f, "inv").Interface())
+	}
+
 	for _, op := range c.Ops {
 		var ot OpTrace
 		r.events = nil
